@@ -5,7 +5,50 @@ use crate::rng::{hex, Rng};
 use minidump_writer::mem_reader::MemReader;
 use std::num::NonZeroUsize;
 
+/// One reader, several reads, while the target's memory changes: a busy thread keeps a counter in memory; every read of
+/// it through the same reader must return the value the target holds *now* (it never decreases, and it has advanced
+/// after the thread ran for a while) — a strategy must not answer from an earlier snapshot.
+pub fn generate_fresh(seed: u64, tier: &str, out: &mut dyn std::io::Write) {
+    let n = if tier == "thorough" { 12 } else { 3 };
+    for i in 0..n {
+        let mut r = Rng::for_case(seed, 1717, i);
+        let t = match Target::spawn(&["-t".to_string(), "0".to_string(), "-s".to_string(), "2".to_string()]) {
+            Ok(t) => t,
+            Err(_) => continue,
+        };
+        let th = t.threads.iter().find(|x| x.spin).unwrap();
+        let caddr = th.regs_addr + 384;
+        for strat in ["v", "f"] {
+            let mut mr = match strat {
+                "v" => MemReader::for_virtual_mem(t.pid),
+                _ => match MemReader::for_file(t.pid) { Ok(m) => m, Err(_) => continue },
+            };
+            // reads of different lengths and offsets around the counter, all within one 8 KiB window
+            let mut vals: Vec<u64> = Vec::new();
+            let mut ok = true;
+            for k in 0..6 {
+                let before = r.below(3) * 8;
+                let len = 8 + before + r.below(4) * 8;
+                match mr.read_to_vec((caddr - before) as usize, NonZeroUsize::new(len as usize).unwrap()) {
+                    Ok(v) if v.len() as u64 == len => {
+                        let off = before as usize;
+                        vals.push(u64::from_le_bytes(v[off..off + 8].try_into().unwrap()));
+                    }
+                    _ => { ok = false; break; }
+                }
+                if k < 5 {
+                    std::thread::sleep(std::time::Duration::from_millis(2));
+                }
+            }
+            let now = t.read_u64(caddr);
+            let vs: Vec<String> = vals.iter().map(|v| v.to_string()).collect();
+            writeln!(out, "C17 f{}-{}-{} kind=fresh strat={} result={} vals={} after={}", seed, i, strat, strat, if ok { "ok" } else { "err" }, vs.join(","), now).unwrap();
+        }
+    }
+}
+
 pub fn generate(seed: u64, tier: &str, out: &mut dyn std::io::Write) {
+    generate_fresh(seed, tier, out);
     let rounds = if tier == "thorough" { 12 } else { 2 };
     for round in 0..rounds {
         let mut r = Rng::for_case(seed, 17, round);
